@@ -27,7 +27,11 @@ def budget(tier):
 
 
 def gen(R, tier):
-    return resgen.gen_resolvable(R, tier, kinds=('cut', 'levels', 'fragset', 'fragset'))
+    case = resgen.gen_resolvable(R, tier, kinds=('cut', 'levels', 'fragset', 'fragset'))
+    if case is not None:
+        case['perm_seed'] = R.randint(0, 10 ** 6)
+        case['key_style'] = R.choice(['x10', 'reverse', 'same'])
+    return case
 
 
 def nontrivial(case):
@@ -63,7 +67,36 @@ def run_steps(case, per_step):
     return r
 
 
+def graph_variant(case):
+    """the base graph as nx.Graph with other keys and shuffled insertion order (from_graph)"""
+    import random
+    import re
+    import networkx as nx
+    from cgsmiles import MoleculeResolver, read_cgsmiles
+    blocks = re.findall(r"\{[^\}]+\}", case['input'])
+    meta = sut(read_cgsmiles, blocks[0])
+    n = len(meta)
+    style = case.get('key_style', 'x10')
+    mp = {k: (10 * (k + 1) if style == 'x10' else (n - 1 - k) if style == 'reverse' else k) for k in meta.nodes}
+    order = list(meta.nodes)
+    random.Random(case.get('perm_seed', 0)).shuffle(order)
+    g = nx.Graph()
+    for k in order:
+        g.add_node(mp[k], **meta.nodes[k])
+    for a, b, d in meta.edges(data=True):
+        g.add_edge(mp[a], mp[b], **d)
+    return MoleculeResolver.from_graph('.'.join(blocks[1:]), g, last_all_atom=case['last_all_atom'], legacy=case['legacy']), \
+        [mp[k] for k in order]
+
+
 def oracle(case):
     def step(lv, cg, fine, templates, all_atom):
         invariants.check_mapping(cg, fine, templates, all_atom, 'level %d: ' % lv)
-    run_steps(case, step)
+    r0 = run_steps(case, step)
+    if r0.resolution_counter < r0.resolutions:
+        return
+    r, keys = sut(graph_variant, case)
+    for lv in range(r.resolutions):
+        cg, fine = sut(r.resolve)
+        all_atom = case['last_all_atom'] and lv == r.resolutions - 1
+        invariants.check_mapping(cg, fine, r.fragment_dicts[lv], all_atom, 'from_graph (node keys in insertion order %r) level %d: ' % (keys, lv))
